@@ -17,6 +17,11 @@ def predict(cfg, rng, q=None):
     # continuum clauses: tolerance from the measured spectral resolution (only asserted on well resolved grids)
     spec = np.abs(np.fft.rfft(q.X1c * q.Y1s + q.sigma)); tail = spec[-3:].max() / max(spec.max(), 1e-300)
     ctol = max(1e-7, 1e3 * tail)
+    if isinstance(cfg, dict) and 'preset' not in cfg:
+        n += 1
+        for k_ in ('I2', 'B0', 'etabar', 'sigma0'):
+            if k_ in cfg and float(getattr(q, k_)) != float(cfg[k_]):
+                bad('input:' + k_, 'the object was given %s = %r but holds %r: the tensor is that of another configuration' % (k_, cfg[k_], float(getattr(q, k_)))); break
     n += 2
     if tail < 1e-9:
         if np.max(np.abs(T.nn + T.bb + tt)) > ctol * sc:
